@@ -31,6 +31,9 @@ def run(chk):
         if r.res[0] == 'PANIC':
             npanic += 1
             continue
+        if r.res[0] == 'WFPANIC':
+            chk.violation('panic', 'deriving or reading the face information of a constructed 3D cell panicked: %s (record %d, %s)' % (' '.join(r.res[1:])[:200], r.id, r.family), rp, key=r.family + ' ' + ' '.join(r.res[1:]))
+            continue
         cut = r.inp.index('DU') if 'DU' in r.inp else len(r.inp)
         inp = parse_input(r.inp[:cut])
         if r.res[0] == 'LOWDIM':
